@@ -4,7 +4,7 @@
 //!   mid     = local offer set (have-local-offer): the description arrives as the answer
 //!   est     = a complete offer/answer done: the description arrives as a re-offer
 //!   closing = after close(): the description arrives as an offer
-use super::pump::{Task, pump};
+use super::pump::guarded;
 use super::{Feed, LiveObs};
 use crate::templates;
 use rustrtc::{IceCandidate, MediaKind, PeerConnection, RtcConfiguration, SdpType, SessionDescription, SignalingState, TransceiverDirection, TransportMode};
@@ -36,24 +36,6 @@ fn new_pc(mode: TransportMode) -> PeerConnection {
         let _ = pc.create_data_channel("chat", None);
     }
     pc
-}
-
-/// Run one async API call of the connection as a hand-polled task so that a panic inside is data.
-async fn guarded<T: Send + 'static>(f: impl std::future::Future<Output = T> + Send + 'static) -> Result<T, String> {
-    let slot: Arc<Mutex<Option<T>>> = Arc::new(Mutex::new(None));
-    let s2 = slot.clone();
-    let mut t = Task::new("pc-call", async move {
-        let v = f.await;
-        *s2.lock().unwrap() = Some(v);
-    });
-    let done = pump(&mut [&mut t], || slot.lock().unwrap().is_some(), Duration::from_secs(20)).await;
-    if let Some(p) = t.panicked {
-        return Err(format!("panic: {p}"));
-    }
-    if !done {
-        return Err("hang: the call did not return within 20 s".into());
-    }
-    Ok(slot.lock().unwrap().take().unwrap())
 }
 
 impl Ep {
